@@ -82,10 +82,12 @@ def _effective(d: str, config_name: str, modules: list[str]) -> dict[str, Any]:
     return res
 
 
-def compose(sections: list[dict[str, Any]], modules: list[str]) -> dict[str, Any]:
+def compose(sections: list[dict[str, Any]], modules: list[str], toml_sections: list[dict[str, Any]] | None = None) -> dict[str, Any]:
+    """`toml_sections` (optional) is an equivalent decomposition for pyproject.toml in which a module may be named by several
+    overrides that set different options (legal in TOML only)."""
     d = basic.fresh_dir("c17c")
     try:
-        common.write_files(d, {"mypy.ini": render_ini(sections), "pyproject.toml": render_toml(sections)})
+        common.write_files(d, {"mypy.ini": render_ini(sections), "pyproject.toml": render_toml(toml_sections or sections)})
         ini = _effective(d, "mypy.ini", modules)
         toml = _effective(d, "pyproject.toml", modules)
         from mypy.options import Options
